@@ -146,10 +146,13 @@ def rest_cases(ctx):
     pan = [m for m in intime if m["term"] == "panic" and not m["steps"]]
     if not pan:
         raise core.Infra("no plain panic scenario among the generated ones")
-    c = {x: pan[0][x] for x in pan[0] if x != "boundary"}
-    c["mode"] = "stress"
-    c["n"] = 30000 if ctx.quick else 300000
-    cases.append(c)
+    # (kept out of the main replay: its load would disturb the real-time observations on the started server)
+    for part in range(2 if ctx.quick else 4):
+        c = {x: pan[0][x] for x in pan[0] if x != "boundary"}
+        c["mode"] = "stress"
+        c["n"] = 15000 if ctx.quick else 75000
+        c["part"] = part
+        cases.append(c)
     # MaxConns histories
     nconn = 0
     for n in (1, 2, 3):
@@ -231,8 +234,11 @@ def run_rpc(ctx):
 def run(ctx):
     mc(ctx)
     cases = rest_cases(ctx)
+    stress = [c for c in cases if c.get("mode") == "stress"]
+    cases = [c for c in cases if c.get("mode") != "stress"]
     if run_rest(ctx, cases) is not None:
         vacuity(ctx)
+    run_rest(ctx, stress, label="rest-stress", shards=len(stress))
     if not ctx.quick:
         b = [c for c in cases if c.get("mode") == "boundary"]
         run_rest(ctx, b, label="rest-race", race=True, shards=4)
@@ -254,6 +260,10 @@ def replay(ctx, rp):
             cases = rest_cases(ctx)
             if case["label"] == "rest-race":
                 cases = [c for c in cases if c.get("mode") == "boundary"]
+            elif case["label"] == "rest-stress":
+                cases = [c for c in cases if c.get("mode") == "stress"]
+            else:
+                cases = [c for c in cases if c.get("mode") != "stress"]
         else:
             cases = [json.loads(x) for x in open(src) if x.strip()]
         run_rest(ctx, cases, label=case["label"], race=(case["label"] == "rest-race"))
